@@ -37,8 +37,17 @@ class Preemptive:
              "hrevolve_sequences/periodic_disk_revolve.py",
              "hrevolve_sequences/basic_functions.py")
 
-    def __init__(self, seed, tasks, p_cold, p_hot, world_kw=None):
+    def __init__(self, seed, tasks, p_cold, p_hot, world_kw=None,
+                 p_excursion=0.0):
         self.rng = random.Random(seed)
+        # share of hand-overs that are *excursions*: the other task runs,
+        # without being pre-empted, until the library call it is in (or
+        # makes next: one constructor, one next()) returns; then the baton
+        # goes straight back.  This is "a second thread executes a whole
+        # library call in the middle of one call of the first thread".
+        self.p_excursion = p_excursion
+        self.excursion = None       # (owner, runner) while one is active
+        self.excursions = 0
         # swarm: besides the named hot functions, one library file per
         # world is "hot" as a whole (drawn from the world PRNG)
         self.hot_file = self.rng.choice(self.FILES)
@@ -67,10 +76,13 @@ class Preemptive:
 
     def maybe_switch(self, me, frame):
         self.line_events += 1
+        if self.excursion is not None:
+            return                  # the runner of an excursion is not pre-empted
         code = frame.f_code
-        p = self.p_hot if (code.co_name in HOT or
-                           code.co_filename.endswith(self.hot_file)) \
-            else self.p_cold
+        hot = (code.co_name in HOT or
+               code.co_filename.endswith(self.hot_file) or
+               (self.p_excursion and code.co_name == "__init__"))
+        p = self.p_hot if hot else self.p_cold
         if self.rng.random() >= p:
             return
         others = [t for t in sorted(self.alive) if t != me]
@@ -80,14 +92,37 @@ class Preemptive:
         site = (os.path.basename(code.co_filename), frame.f_lineno)
         self.sites.add(site)
         self.switches += 1
-        self.log.update(f"{me}>{nxt}@{site[0]}:{site[1]};".encode())
+        kind = ">"
+        if self.p_excursion and self.rng.random() < self.p_excursion:
+            self.excursion = (me, nxt)
+            self.excursions += 1
+            kind = ">>"
+        self.log.update(f"{me}{kind}{nxt}@{site[0]}:{site[1]};".encode())
         self.events[me].clear()
         self.events[nxt].set()
         self._wait(me)
 
+    def end_excursion(self, me):
+        """The runner's library call has returned: baton back to the owner."""
+        owner = self.excursion[0]
+        self.excursion = None
+        if owner not in self.alive:
+            return
+        self.log.update(f"{me}<<{owner};".encode())
+        self.events[me].clear()
+        self.events[owner].set()
+        self._wait(me)
+
     def finish(self, me):
         self.alive.discard(me)
-        if self.alive:
+        owner = None
+        if self.excursion is not None and self.excursion[1] == me:
+            owner = self.excursion[0]
+            self.excursion = None
+        if owner is not None and owner in self.alive:
+            self.log.update(f"{me}.<<{owner};".encode())
+            self.events[owner].set()
+        elif self.alive:
             nxt = self.rng.choice(sorted(self.alive))
             self.log.update(f"{me}.{nxt};".encode())
             self.events[nxt].set()
@@ -98,17 +133,26 @@ class Preemptive:
     def _global_trace(self, frame, event, arg):
         if event == "call" and \
                 frame.f_code.co_filename.startswith(self.libdir):
+            self.tls.depth += 1
             return self._local_trace
         return None
 
     def _local_trace(self, frame, event, arg):
         if event == "line":
             self.maybe_switch(self.tls.me, frame)
+        elif event == "return":
+            # generator frames: every yield is a return, every resumption a
+            # call, so depth 0 means "back in the harness"
+            self.tls.depth -= 1
+            if self.tls.depth == 0 and self.excursion is not None \
+                    and self.excursion[1] == self.tls.me:
+                self.end_excursion(self.tls.me)
         return self._local_trace
 
     # -- tasks -------------------------------------------------------------
     def _task(self, me):
         self.tls.me = me
+        self.tls.depth = 0
         try:
             self._wait(me)
             cfg, passes = self.tasks[me]
@@ -147,5 +191,7 @@ class Preemptive:
         return self
 
 
-def run_preemptive(seed, tasks, p_cold, p_hot, world_kw=None):
-    return Preemptive(seed, tasks, p_cold, p_hot, world_kw).run()
+def run_preemptive(seed, tasks, p_cold, p_hot, world_kw=None,
+                   p_excursion=0.0):
+    return Preemptive(seed, tasks, p_cold, p_hot, world_kw,
+                      p_excursion).run()
